@@ -597,6 +597,17 @@ func c17Block(c *Ctx, p *Prog, pk *packages.Package, rule string, m *mirrorer, f
 		case *ast.ForStmt:
 			cond = nil // colour loops `color <= Black` are R3's domain
 		}
+		if ifs, ok := s.(*ast.IfStmt); ok && ifs.Init != nil && m.colourIndexed(ifs.Init) {
+			// `if v := <both colours>; v <= k`: the value the condition tests is computed in the init statement
+			if w, b := m.mentions(ifs.Init); w && b {
+				if str, simple := m.stmtString(ifs.Init, false); simple {
+					ord++
+					self++
+					mir, _ := m.stmtString(ifs.Init, true)
+					c.Check(mir == str, rule, fmt.Sprintf("%s#both-colours@%d", fn, ord), ifs.Init.Pos(), "a statement mentioning both colours is unchanged by swapping them (mirror: %s ; as written: %s)", clip(mir), clip(str))
+				}
+			}
+		}
 		if cond != nil && m.colourIndexed(cond) {
 			if w, b := m.mentions(cond); w && b {
 				ord++
